@@ -180,7 +180,7 @@ fn run_lin(inst: &Inst) -> Option<Case> {
                 };
                 lo.to_bits() != dl.to_bits() || hi.to_bits() != dh.to_bits()
             });
-            c.oracle = format!("check {} (exprs) {}", tail, imp);
+            c.oracle = format!("check-lin {} {}", tail, imp);
             c.imp = imp;
         }
         Err(_) => {
@@ -561,6 +561,30 @@ fn s_steplimit(r: &mut Rng) -> Inst {
     Inst { domain, constraints: cs, exprs, tags: vec!["step-limit".into()] }
 }
 
+/// rows whose two sides differ by many orders of magnitude (big-M style constants, tiny coefficients)
+fn s_magnitude(r: &mut Rng) -> Inst {
+    let vars = var_names(1 + r.below(2));
+    let hi: f64 = *r.pick(&[1.0, 10.0, 1000.0, 0.5]);
+    let domain: Vec<(String, VariableType)> = vars.iter().map(|x| (x.clone(),
+        if r.chance(1, 4) { VariableType::IntegerRange(0, hi.max(1.0) as i32) } else { VariableType::Real(if r.chance(1, 2) { 0.0 } else { -hi }, hi) })).collect();
+    let big = *r.pick(&[1e6, 1e9, 1e12, 1e15, 1e16, 3e17]);
+    let small = *r.pick(&[1.0, 1e-3, 1e-6, 1e-9, 1e-12]);
+    let x = vars[0].clone();
+    let inner = if small == 1.0 { v(&x) } else { mul(k(small), v(&x)) };
+    let lhs = match r.below(6) {
+        0 => abs(inner),
+        1 => Exp::Max(vec![inner, pv(r, &vars)]),
+        2 => Exp::Min(vec![inner, k(big)]),
+        3 => add(abs(inner), k(big)),
+        4 => add(inner, mul(k(small), pv(r, &vars))),       // affine row: no absorption expected
+        _ => sub(Exp::Max(vec![inner, k(0.0)]), k(big)),
+    };
+    let (op, rhs) = match r.below(3) { 0 => (Comparison::LessOrEqual, k(big)), 1 => (Comparison::GreaterOrEqual, k(-big)), _ => (Comparison::LessOrEqual, k(2.0 * big)) };
+    let cs = vec![row(lhs.clone(), op, rhs, 0)];
+    let exprs = vec![lhs, add(v(&x), sub(k(big), k(big))), sub(add(v(&x), k(big)), k(big))];
+    Inst { domain, constraints: cs, exprs, tags: vec!["magnitude".into()] }
+}
+
 fn s_zero(r: &mut Rng) -> Inst {
     let vars = var_names(2 + r.below(2));
     let domain = vars.iter().map(|x| (x.clone(), var_type(r, false))).collect();
@@ -689,6 +713,10 @@ fn fixed() -> Vec<Inst> {
                exprs: vec![], tags: t("coefficient-overflow-reciprocal") },
         Inst { domain: d(vec![("x", real(-INF, INF))]), constraints: vec![row(mul(k(1e300), mul(k(1e300), v("x"))), ge, k(-5.0), 0)],
                exprs: vec![], tags: t("coefficient-overflow-product") },
+        // known finding C07-float-rounding-var (liveness): absorption in the reverse step of a non-affine row
+        Inst { domain: d(vec![("x", VariableType::NonNegativeReal(0.0, 1.0)), ("y", VariableType::NonNegativeReal(0.0, 1.0))]),
+               constraints: vec![row(Exp::Max(vec![v("x"), v("y")]), le, k(1e16), 0)], exprs: vec![], tags: t("bigm-absorption") },
+        Inst { domain: d(vec![("z", real(0.0, 1000.0))]), constraints: vec![row(abs(mul(k(1e-9), v("z"))), le, k(1e9), 0)], exprs: vec![], tags: t("bigm-absorption-partial") },
         // inf - inf in interval sums (NaN repair)
         Inst { domain: d(vec![("x", real(-INF, INF)), ("y", real(0.0, INF))]), constraints: vec![row(sub(v("x"), v("y")), le, k(INF), 0)],
                exprs: vec![add(v("x"), k(INF)), sub(v("y"), v("y")), sub(k(-INF), v("x")), add(v("x"), v("y"))], tags: t("inf-minus-inf") },
@@ -720,7 +748,7 @@ pub fn generate(seed: u64, n: usize, _thorough: bool, _corpus: Option<&str>) -> 
             11 => s_nonaffine(&mut r),
             12 => s_zero(&mut r),
             13 => s_special(&mut r),
-            14 => s_random(&mut r),
+            14 => if i % 32 == 14 { s_magnitude(&mut r) } else { s_random(&mut r) },
             _ => s_undeclared(&mut r),
         };
         let mut inst = inst;
